@@ -388,21 +388,21 @@ def _check_split(repo, res):
             got = {}
             me = Obj("Model")
             summ = {"re_split_string.split": lambda x: rx.split(x),
-                    "Model.__setattr__": lambda me_, n, v, _g=got: _g.__setitem__(n, v)}
+                    "Model.__setattr__": lambda me_, n, v: me_.attrs.__setitem__(n, v)}
             ab = Abs({}, dict(TYPES), summ, me)
             try:
                 kind, _ = ab.run_function(f.node, {"attr": s, "attr_list_name": "names"})
             except Undecided as e:
                 res.undecided("R-SPLIT", f, "abstract-execution", "outside the modelled subset: %s" % e)
                 return
-            outs.append((kind, got.get("names")))
+            outs.append((kind, me.attrs.get("names")))
         want = [x for x in _re.split(r"[,\s]", s) if x.strip()]
         # list form through the limits helper
         got = {}
         me = Obj("Model")
-        ab = Abs({}, dict(TYPES), {"Model.__setattr__": lambda me_, n, v, _g=got: _g.__setitem__(n, v)}, me)
+        ab = Abs({}, dict(TYPES), {"Model.__setattr__": lambda me_, n, v: me_.attrs.__setitem__(n, v)}, me)
         kind, _ = ab.run_function(f2.node, {"attr": list(want), "attr_list_name": "names"})
-        outs.append((kind, got.get("names")))
+        outs.append((kind, me.attrs.get("names")))
         if not all(k == "return" and o == want for k, o in outs):
             bad.append("%r -> %s (expected %s)" % (s, [o for _, o in outs], want))
     res.check(not bad, "R-SPLIT", f2, "agree", "both helpers and the list form give the same names for %d declaration strings" % len(inputs),
